@@ -285,6 +285,26 @@ theorem honest_run_matches_table : ∀ (sa ca se ce : Fin 4), ∀ sh ∈ shapes,
     cellOK sa ca se ce sh (fun m => m == "CLAIMTOBE") = true := by
   decide
 
+/-- **preferred_failing_method_fails_late** — a cell in which the code does NOT follow the table
+    (recorded finding F-C10-preferred-auth-fails-late): nobody requires authentication, the server
+    prefers it, the only commonly listed method (FS) cannot complete between the two parties. No
+    mutually usable method exists, so the table says: success, unauthenticated. `honestRun` — which
+    the `matrix` engine compares with two real endpoints cell by cell, this shape included — decides
+    to authenticate because a common method is LISTED, the exchange fails on the wire, the client
+    gives up and both ends fail, without a denial. (`honest_run_matches_table` above does not cover
+    it: in each of its shapes some listed method completes.) -/
+theorem preferred_failing_method_fails_late :
+    let c : ClientCfg := { auth := lvl 2, enc := lvl 2, integ := lvlOptional, methods := ["FS"], ciphers := ["AES"] }
+    let s : ServerCfg := { auth := lvl 1, enc := lvl 2, integ := lvlOptional, methods := ["FS"], ciphers := ["AES"] }
+    let r := honestRun c s (fun _ => false) "u" "sid"
+    table 1 2 2 2 (usableMethod ["FS"] ["FS"] (fun _ => false)) (commonCipher ["AES"] ["AES"]) = some (false, false) ∧
+    (match r.client, r.server with | .error _, .error _ => true | _, _ => false) = true ∧ r.denied = false := by
+  decide
+
+/-- the same cell when the listed method works: success, authenticated — the failure above is the
+    run-time failure of the method, not the policy -/
+example : cellOK 1 2 2 2 (["FS"], ["FS"], ["AES"], ["AES"]) (fun m => m == "FS") = true := by decide
+
 /-- **server_denies_iff**: the server answers with the explicit denial (and fails) exactly when its
     `negotiateSecurity` fails — never a bare close for a policy mismatch -/
 theorem server_denies_iff (cfg : ServerCfg) (cli : ClientScript) (sid : String) :
